@@ -79,6 +79,11 @@ class CallMixin:
             return [(st, v)]
         if n in ("all", "any") and len(e.args) == 1 and isinstance(e.args[0], ast.GeneratorExp):
             return [(st, mk_bool(self.quantifier(n, e.args[0], st)))]
+        if n in ("re_matched", "re_start", "re_end", "re_group"):
+            return [(st, self.re_macro(n, e, st))]
+        if n == "is_digits":
+            v = self.coerce(self.ev1(e.args[0], st), TSTR, st)
+            return [(st, mk_bool(T('(str.in_re %s (re.+ (re.range "0" "9")))' % v.t.s, BOOL)))]
         if n == "is_String":
             v = self.ev1(e.args[0], st)
             return [(st, mk_bool(smt.Eq(v.ts[1], smt.Int(1)) if v.ty.kind == "tstr" else smt.FALSE))]
@@ -187,6 +192,17 @@ class CallMixin:
                 out += self.apply_contract(con, pos, kw, s, exc, site=src)
             return out
         mode = directive.split(":")
+        if mode[0] == "inline":
+            fnode = extract.find(directive[len("inline:"):]).node
+            out = []
+            for s, pos, kw in self.eval_args(e, st, exc):
+                args = list(pos)
+                if isinstance(e.func, ast.Attribute) and fnode.args.args and fnode.args.args[0].arg in ("self", "cls"):
+                    for s2, r in self.ev(e.func.value, s, exc):
+                        out += self.inline(fnode, [r] + args, kw, s2, exc)
+                else:
+                    out += self.inline(fnode, args, kw, s, exc)
+            return out
         for s, pos, kw in self.eval_args(e, st, exc):
             args = list(pos) + list(kw.values())
             if isinstance(e.func, ast.Attribute) and static_name(e.func.value) is None or (
@@ -218,6 +234,11 @@ class CallMixin:
 
     # --------------------------------------------------------------- by name
     def call_name(self, n, e, st, exc):
+        if n in self.modpatterns and n not in st.env:
+            out = []
+            for s, pos, kw in self.eval_args(e, st, exc):
+                out += self.call_value(self.regex_sv(n, self.modpatterns[n]), e, s, exc, n, pos, kw)
+            return out
         if n in st.env:
             out = []
             for s, pos, kw in self.eval_args(e, st, exc):
@@ -270,10 +291,29 @@ class CallMixin:
         for k in self.mro(cls):
             for fid, c in C.CONTRACTS.items():
                 if fid.split(":")[1] == "%s.%s" % (k, name):
-                    is_prop = getattr(c, "is_property", False) or c.note.startswith("@property")
+                    is_prop = c.prop
                     if want_property and not is_prop:
                         return None
                     return c
+        return None
+
+    def property_node(self, cls, attr):
+        """FunctionDef of a @property named attr in the (declared) class or its bases"""
+        if cls is None:
+            return None
+        for k in self.mro(cls):
+            d = C.CLASSES.get(k)
+            node = None
+            if d and d.get("module"):
+                node = extract.module_classes(extract.module_ast(d["module"])).get(k)
+            elif k in self.modclasses:
+                node = self.modclasses[k]
+            if node is None:
+                continue
+            for n in node.body:
+                if isinstance(n, ast.FunctionDef) and n.name == attr and any(
+                        isinstance(dd, ast.Name) and dd.id == "property" for dd in n.decorator_list):
+                    return n
         return None
 
     def call_value(self, fv, e, st, exc, src, pos=None, kw=None):
@@ -297,6 +337,10 @@ class CallMixin:
                 out += self.call_method_on(fv.py[1], fv.py[2], pos, kw, s, exc, e)
             elif fv.ty.kind == "cls":
                 out += self.rule_call(fv, pos, kw, s, exc, src)
+            elif fv.ty.kind == "regex":
+                if fv.py[2] is None:
+                    raise Unsupported("calling a pattern object")
+                out.append((s, self.regex_call(fv, fv.py[2], pos, s, exc)))
             elif fv.ty.kind == "func" and isinstance(fv.py, str):
                 fake = ast.Call(func=ast.Name(id=fv.py, ctx=ast.Load()), args=[], keywords=[])
                 con = self.find_function(fv.py)
@@ -329,6 +373,11 @@ class CallMixin:
         sn = static_name(f)
         src = ast.unparse(f)
         root = sn.split(".")[0] if sn else None
+        if sn and root not in st.env and root in self.modpatterns and sn.count(".") == 1:
+            out = []
+            for s, pos, kw in self.eval_args(e, st, exc):
+                out.append((s, self.regex_call(self.regex_sv(root, None), f.attr, pos, s, exc)))
+            return out
         if sn and root not in st.env and root not in self.contract.bind:
             # module-level function such as os.path.exists, logging.getLogger(...)
             if sn.startswith("logging.") or sn.startswith("traceback."):
@@ -406,6 +455,10 @@ class CallMixin:
         if k in ("str", "tstr"):
             r = self.str_method(recv, name, pos, kw, st, exc)
             return r if isinstance(r, list) else [(st, r)]
+        if k == "regex":
+            return [(st, self.regex_call(recv, name, pos, st, exc))]
+        if k in ("match", "optmatch"):
+            return [(st, self.match_method(recv, name, pos, st, exc))]
         if k == "list":
             return self.list_method(recv, recv_ast, name, pos, kw, st, exc)
         if k == "dict":
